@@ -6,6 +6,9 @@
 //	batch <op> <op> …     one Writer.Batch; op = ins:<id>:<body> | upd:<id>:<body> | del:<id>; "batch -" = empty batch
 //	par <ops> | <ops>     two Writer.Batch calls issued concurrently (both add documents), to occupy the window
 //	                      between prepareSegment's optimistic obsoletes and the introduction
+//	mwhold                (cases tagged mw=1) let the real merger plan a file merge of the persisted segments built so
+//	                      far and park it at EventKindMergeTaskIntroductionStart (merged segment written, not yet introduced)
+//	mwrelease             release the parked merger and wait for EventKindMergeTaskIntroduction
 //	end                   close the writer
 //
 // Pair lines written by exec (model op ## implementation result). Every root the introducer installs is
@@ -15,6 +18,8 @@
 //	persist <epoch> <sid>[docs] …                 ## <physical root>      (creator introducePersist)
 //	merge <epoch> <physical root>                 ## <physical root>      (creator introduceMerge)
 //	read k=<K>                                    ## n=<Count> all=<id.body,…> look=<id>=<body;…>,…
+//	mwhold held|na / mwrelease done|na            ## -      (the outcome of the bounded wait is part of the op line:
+//	                                                          `na` = the merger did not get there in time, the step is skipped)
 //
 // physical root = e<epoch> then per segment <sid><m|p>[<id>.<body>,…]{<deleted doc numbers>}.
 package main
@@ -33,11 +38,16 @@ import (
 	"strconv"
 	"strings"
 	"sync"
+	"sync/atomic"
 	"time"
 
+	"github.com/RoaringBitmap/roaring"
 	"github.com/blugelabs/bluge"
 	"github.com/blugelabs/bluge/index"
+	"github.com/blugelabs/bluge/index/mergeplan"
 	segment "github.com/blugelabs/bluge_segment_api"
+	iceV1 "github.com/blugelabs/ice"
+	iceV2 "github.com/blugelabs/ice/v2"
 
 	"verif/harness/hlib"
 )
@@ -55,7 +65,9 @@ func (h) Rule() string {
 	return "histories of 1–25 batches over an id space of 1–12 ids (20%: 16–48 ids), batch sizes 0–40 capped by the id space, " +
 		"op weights insert 30 / update 40 / delete 20, 5% empty and 5% delete-only batches, no id named twice in a batch " +
 		"(except in the dedicated probe case), 12% of the steps are two concurrent batches; configurations cycle through " +
-		"{mem,fs}×{ice v1,v2}×{safe,unsafe} with merge-plan options shrunk so that merges happen; a step is non-trivial " +
+		"{mem,fs}×{ice v1,v2}×{safe,unsafe} with merge-plan options shrunk so that merges happen; after every 6th case a " +
+		"merge-window case (fs/mem × v1/v2, safe): 2–4 persisted segments of uneven sizes, the real merger parked at " +
+		"EventKindMergeTaskIntroductionStart, 1–3 batches of deletes/updates on the merging segments, release; a step is non-trivial " +
 		"when its batch is not empty and distinct when its (configuration, history prefix) is new"
 }
 
@@ -399,6 +411,7 @@ type caseState struct {
 	prev     map[uint64]bool // sid -> persisted, of the last emitted root
 	history  string          // for distinctness
 	inflight []inflight
+	mw       bool // merge-window case
 }
 
 type inflight struct {
@@ -406,6 +419,81 @@ type inflight struct {
 	seen uint64
 	docs map[int]bool // bodies of the documents the batch adds
 	used bool
+}
+
+// ---------------------------------------------------------------- merge window gate
+//
+// In a merge-window case the merge planner's budget is under the harness's control (MergePlanOptions.CalcBudget):
+// a large budget while the segments are built (no merge), 1 when a merge is wanted. The first merge task that
+// reaches EventKindMergeTaskIntroductionStart while the gate is armed is parked there until released.
+
+var mwBudget int64 = 1000
+
+type mwGate struct {
+	mu           sync.Mutex
+	armed        bool
+	parked       bool
+	done         bool
+	heldCh       chan struct{}
+	release      chan struct{}
+	doneCh       chan struct{}
+	mergeStarted int32 // the segment plugin's Merge was called since the gate was armed
+}
+
+var gate = &mwGate{}
+
+func (g *mwGate) arm() {
+	g.mu.Lock()
+	g.armed, g.parked, g.done = true, false, false
+	g.heldCh, g.release, g.doneCh = make(chan struct{}), make(chan struct{}), make(chan struct{})
+	atomic.StoreInt32(&g.mergeStarted, 0)
+	g.mu.Unlock()
+}
+
+// disarm: nothing will be parked any more; reports whether a task is parked right now
+func (g *mwGate) disarm() bool {
+	g.mu.Lock()
+	defer g.mu.Unlock()
+	g.armed = false
+	return g.parked
+}
+
+// open releases a parked task (idempotent)
+func (g *mwGate) open() {
+	g.mu.Lock()
+	g.armed = false
+	if g.parked && g.release != nil {
+		select {
+		case <-g.release:
+		default:
+			close(g.release)
+		}
+	}
+	g.mu.Unlock()
+}
+
+func (g *mwGate) event(e index.Event) {
+	switch e.Kind {
+	case index.EventKindMergeTaskIntroductionStart:
+		g.mu.Lock()
+		if g.armed && !g.parked {
+			g.parked = true
+			g.armed = false
+			rel := g.release
+			close(g.heldCh)
+			g.mu.Unlock()
+			<-rel
+			return
+		}
+		g.mu.Unlock()
+	case index.EventKindMergeTaskIntroduction:
+		g.mu.Lock()
+		if g.parked && !g.done {
+			g.done = true
+			close(g.doneCh)
+		}
+		g.mu.Unlock()
+	}
 }
 
 var cur *caseState
@@ -422,6 +510,7 @@ func closeCase(out func(string, string)) {
 	// (Reading a segment after Close is not safe even with a reference held: see the report — a persist that is
 	// in flight when closeCh fires gets its freshly loaded segments closed by prepareIntroducePersist's defer
 	// although the introducer has put them into the root.)
+	gate.open() // a parked merger would never see closeCh
 	emitEvents(out)
 	tr.closing()
 	_ = hlib.Catch(func() string { _ = cur.w.Close(); return "" })
@@ -447,6 +536,11 @@ func openCase(line string, work string) error {
 	k, _ := strconv.Atoi(strings.TrimPrefix(f[2], "k="))
 	caseNo++
 	cs := &caseState{k: k, cfg: f[1], prev: map[uint64]bool{}}
+	for _, w := range f[3:] {
+		if w == "mw=1" {
+			cs.mw = true
+		}
+	}
 	var cfg bluge.Config
 	if parts[0] == "fs" {
 		cs.dir = filepath.Join(work, "c01idx", fmt.Sprintf("case%d", caseNo))
@@ -472,6 +566,29 @@ func openCase(line string, work string) error {
 	ic.MergePlanOptions.SegmentsPerMergeTask = 2
 	ic.MergePlanOptions.TierGrowth = 2.0
 	ic.AsyncError = func(err error) {}
+	if cs.mw {
+		// the planner merges exactly when the harness says so, and then up to 4 segments in one task
+		atomic.StoreInt64(&mwBudget, 1000)
+		ic.MergePlanOptions = mergeplan.DefaultMergePlanOptions
+		ic.MergePlanOptions.SegmentsPerMergeTask = 4
+		ic.MergePlanOptions.FloorSegmentSize = 100
+		ic.MergePlanOptions.CalcBudget = func(totalSize, firstTierSize int64, o *mergeplan.Options) int {
+			return int(atomic.LoadInt64(&mwBudget))
+		}
+		ic.EventCallback = gate.event
+		// know when a merge is being computed (no nudging from then on)
+		realMerge := iceV1.Merge
+		plug := &index.SegmentPlugin{Type: iceV1.Type, Version: iceV1.Version, New: iceV1.New, Load: iceV1.Load}
+		if parts[1] == "v2" {
+			realMerge = iceV2.Merge
+			plug = &index.SegmentPlugin{Type: iceV2.Type, Version: iceV2.Version, New: iceV2.New, Load: iceV2.Load}
+		}
+		plug.Merge = func(segs []segment.Segment, drops []*roaring.Bitmap, buf int) segment.Merger {
+			atomic.StoreInt32(&gate.mergeStarted, 1)
+			return realMerge(segs, drops, buf)
+		}
+		ic = ic.WithSegmentPlugin(plug)
+	}
 	cfg = cfg.VerifWithIndexConfig(ic)
 	tr.reset(true) // one writer at a time
 	w, err := bluge.OpenWriter(cfg)
@@ -742,21 +859,76 @@ func execReal(line string, out func(string, string), st sink, work string) {
 			}
 		}
 		runBatches(opss, out, st)
-		res := hlib.Catch(func() string { return readState(cur.k) })
-		tag := ""
-		if faultyView(res) {
-			// is the fault transient? (a second look at the same, immutable reader state)
-			st.Count("reader-view-faulty")
-			for try := 0; try < 3 && tag == ""; try++ {
-				time.Sleep(30 * time.Millisecond)
-				if again := hlib.Catch(func() string { return readState(cur.k) }); !faultyView(again) {
-					tag = " transient"
+		emitRead(out, st)
+		cur.history += "\n" + line
+		st.Case(cur.cfg+cur.history, rest != "-" && rest != "")
+	case "mwhold":
+		if cur == nil || !cur.mw {
+			out("mwhold na", "-")
+			return
+		}
+		st.Count("op:mwhold")
+		emitEvents(out)
+		if len(cur.prev) < 2 {
+			// nothing to merge (the last root has fewer than two segments)
+			st.Count("mw:fewer-than-two-segments")
+			out("mwhold na", "-")
+			return
+		}
+		gate.arm()
+		atomic.StoreInt64(&mwBudget, 1)
+		held := false
+		deadline := time.Now().Add(8 * time.Second)
+		for !held && time.Now().Before(deadline) {
+			select {
+			case <-gate.heldCh:
+				held = true
+			case <-time.After(120 * time.Millisecond):
+				// the merger plans lazily (it hears of a persisted epoch only when the persister goes round
+				// again): an empty batch wakes it — but only while no merge is being computed
+				if atomic.LoadInt32(&gate.mergeStarted) == 0 {
+					st.Count("mw:nudge")
+					runBatches([]string{"-"}, out, st)
 				}
 			}
 		}
-		out(fmt.Sprintf("read k=%d cfg=%s%s", cur.k, cur.cfg, tag), res)
+		if !held {
+			held = gate.disarm()
+		}
+		emitEvents(out)
+		if held {
+			st.Count("mw:held")
+			out("mwhold held", "-")
+		} else {
+			st.Count("mw:hold-timeout")
+			out("mwhold na", "-")
+		}
 		cur.history += "\n" + line
-		st.Case(cur.cfg+cur.history, rest != "-" && rest != "")
+	case "mwrelease":
+		if cur == nil || !cur.mw {
+			out("mwrelease na", "-")
+			return
+		}
+		gate.mu.Lock()
+		parked, doneCh := gate.parked, gate.doneCh
+		gate.mu.Unlock()
+		res := "na"
+		if parked {
+			gate.open()
+			select {
+			case <-doneCh:
+				res = "done"
+				st.Count("mw:introduced")
+			case <-time.After(10 * time.Second):
+				st.Count("mw:release-timeout")
+			}
+		}
+		atomic.StoreInt64(&mwBudget, 1000)
+		out("mwrelease "+res, "-")
+		emitEvents(out)
+		emitRead(out, st)
+		cur.history += "\n" + line
+		st.Case(cur.cfg+cur.history, res == "done")
 	case "end":
 		if cur == nil {
 			out(line, "no-case")
@@ -780,6 +952,23 @@ func execReal(line string, out func(string, string), st sink, work string) {
 	default:
 		out(line, "bad-op")
 	}
+}
+
+// emitRead prints the reader's view (with a second look when the first one is faulty)
+func emitRead(out func(string, string), st sink) {
+	res := hlib.Catch(func() string { return readState(cur.k) })
+	tag := ""
+	if faultyView(res) {
+		// is the fault transient? (a second look at the same, immutable reader state)
+		st.Count("reader-view-faulty")
+		for try := 0; try < 3 && tag == ""; try++ {
+			time.Sleep(30 * time.Millisecond)
+			if again := hlib.Catch(func() string { return readState(cur.k) }); !faultyView(again) {
+				tag = " transient"
+			}
+		}
+	}
+	out(fmt.Sprintf("read k=%d cfg=%s%s", cur.k, cur.cfg, tag), res)
 }
 
 var corruptRe = regexp.MustCompile(`[.=;]1[0-9]{9}\b`)
@@ -1042,7 +1231,92 @@ func (h) Gen(r *hlib.Rand, tier string, scale int, emit func(string)) {
 			}
 		}
 		emit("end")
+		if c%6 == 5 {
+			genMergeWindow(r, c/6, emit)
+		}
 	}
+}
+
+// genMergeWindow: 2–4 segments of uneven sizes (mostly the older ones smaller, some with documents superseded by
+// later build batches), a parked file merge, 1–3 batches of deletes/updates hitting documents of the merging segments
+// (and some that do not), release, one or two more batches
+func genMergeWindow(r *hlib.Rand, c int, emit func(string)) {
+	dirs := []string{"fs", "mem"}
+	vers := []string{"v1", "v2"}
+	body := 0
+	nextBody := func() int { body++; return body }
+	emit(fmt.Sprintf("case %s-%s-safe k=24 mw=1", dirs[c%2], vers[(c/2)%2]))
+	nextID := 1
+	var built []int        // ids living in the built segments
+	segOf := map[int]int{} // id -> index of the build batch holding its live document
+	liveIn := map[int]int{}
+	segNo := 0
+	windows := 1
+	if r.Chance(25) {
+		windows = 2
+	}
+	for w := 0; w < windows; w++ {
+		nseg := r.Range(2, 4)
+		if w > 0 {
+			nseg = r.Range(1, 2) // the merged segment of the first window is one of the inputs
+		}
+		size := r.Range(1, 2)
+		for sgi := 0; sgi < nseg && nextID+size <= 22; sgi++ {
+			ops := []string{}
+			segNo++
+			for j := 0; j < size; j++ {
+				ops = append(ops, fmt.Sprintf("upd:%d:%d", nextID, nextBody()))
+				built = append(built, nextID)
+				segOf[nextID] = segNo
+				liveIn[segNo]++
+				nextID++
+			}
+			if sgi > 0 && len(built) > size && r.Chance(40) {
+				// supersede a document of an older segment: that segment goes into the merge with a deletion
+				// (but keeps a live document, or it would leave the root and there might be nothing to merge)
+				old := built[r.Intn(len(built)-size)]
+				if liveIn[segOf[old]] >= 2 {
+					ops = append(ops, fmt.Sprintf("upd:%d:%d", old, nextBody()))
+					liveIn[segOf[old]]--
+					segOf[old] = segNo
+					liveIn[segNo]++
+				}
+			}
+			emit("batch " + strings.Join(ops, " "))
+			if r.Chance(75) {
+				size += r.Range(1, 3) // the younger segment is the bigger one
+			} else if size > 1 {
+				size -= 1
+			}
+		}
+		emit("mwhold")
+		for nb := r.Range(1, 3); nb > 0; nb-- {
+			ops := []string{}
+			used := map[int]bool{}
+			for n := r.Range(1, 3); n > 0; n-- {
+				id := 23 + r.Intn(2) // an id outside the merging segments
+				if r.Chance(75) && len(built) > 0 {
+					id = built[r.Intn(len(built))]
+				}
+				if used[id] {
+					continue
+				}
+				used[id] = true
+				if r.Chance(55) {
+					ops = append(ops, fmt.Sprintf("del:%d", id))
+				} else {
+					ops = append(ops, fmt.Sprintf("upd:%d:%d", id, nextBody()))
+				}
+			}
+			emit("batch " + strings.Join(ops, " "))
+		}
+		emit("mwrelease")
+		if r.Chance(50) {
+			id := built[r.Intn(len(built))]
+			emit(fmt.Sprintf("batch upd:%d:%d del:%d", id, nextBody(), 23))
+		}
+	}
+	emit("end")
 }
 
 func main() {
